@@ -38,6 +38,26 @@ def main():
                 if len(st["bad"]) < 6:
                     st["bad"].append({"word": word, "rule": rule, "group": g, "value": got, "expected": want})
                 break
+    # C20: a clock pattern must not extend into the first letters of a following day word
+    from spec import vocab as V
+    daywords = ["heute", "morgen", "übermorgen", "gestern", "today", "tomorrow", "yesterday"] + V.EN_DOW + V.DE_DOW + V.AB_DOW + \
+        V.EN_MONTH + V.DE_MONTH
+    st = res.setdefault("C20 clock patterns do not swallow the start of the next word", {"n": 0, "bad": []})
+    for rule in ("ruleHHMM", "ruleHHMMmilitary", "ruleHHOClock"):
+        pred = R.rules[rule][1][0]
+        rid = pred.__closure__[0].cell_contents
+        rr = R._regex[rid]
+        for h in ("8", "12", "0830", "17:45", "9.15"):
+            for w in daywords:
+                text = h + " " + w
+                st["n"] += 1
+                for m in rr.finditer(text, overlapped=True):
+                    s0, e0 = m.span("R%d" % rid)
+                    if s0 < len(h) and e0 > len(h) + 1 and e0 < len(text):
+                        if len(st["bad"]) < 6:
+                            st["bad"].append({"text": text, "rule": rule, "match": text[s0:e0],
+                                              "problem": "the clock match ends inside the following word"})
+                        break
     print(json.dumps(res))
 
 
